@@ -300,6 +300,117 @@ pub fn degenerate_history(seed: u64, thorough: bool) -> History {
     }
 }
 
+/// C07, key-range boundaries: two indexes, each first brought into one of the sparse key shapes
+/// (nothing / items and marks only / items only / version and items / metadata only / fully built by
+/// the shortcut or by the full path), committed; then every kind of operation on ONE of them.
+/// A range scan that runs past its own index meets a different kind of key first in each shape.
+pub fn neighbours_history(seed: u64) -> History {
+    let mut rng = StdRng::seed_from_u64(seed);
+    let p = profile("multi");
+    let pair = *crate::gen::INDEX_PAIRS.choose(&mut rng).unwrap();
+    let dims = [*[2usize, 3, 5].choose(&mut rng).unwrap(), *[2usize, 3, 5].choose(&mut rng).unwrap()];
+    let mut metrics = [*ALL_METRICS.choose(&mut rng).unwrap(), *ALL_METRICS.choose(&mut rng).unwrap()];
+    let decl: Vec<IndexDecl> = (0..2).map(|j| IndexDecl { idx: pair[j], metric: metrics[j], dim: dims[j] }).collect();
+    let ids: [u32; 7] = [0, 1, 2, 3, 7, u32::MAX - 1, u32::MAX];
+    let mut ops = Vec::new();
+    let other_metric = |m: Metric, rng: &mut StdRng| loop {
+        let t = *ALL_METRICS.choose(rng).unwrap();
+        if t != m {
+            return t;
+        }
+    };
+    let mut shapes = Vec::new();
+    for j in 0..2 {
+        let idx = pair[j];
+        let shape = rng.gen_range(0..8);
+        shapes.push(shape);
+        let few: Vec<(u32, Vec<u32>)> = ids.iter().take(2).map(|id| (*id, gen_vector(&mut rng, dims[j], &p, false))).collect();
+        let many: Vec<(u32, Vec<u32>)> = ids.iter().map(|id| (*id, gen_vector(&mut rng, dims[j], &p, false))).collect();
+        let full = BuildOpts { split_after: Some(2), n_trees: Some(2), seed: rng.gen(), ..Default::default() };
+        let shortcut = BuildOpts { split_after: Some(20), seed: rng.gen(), ..Default::default() };
+        match shape {
+            0 => {}                                                                  // no key at all
+            1 => ops.push(Op::AddMany { idx, items: many }),                          // marks + items, never built
+            2 => {
+                // built by the full path (no version record), then prepared for another metric: items only
+                ops.push(Op::AddMany { idx, items: many });
+                ops.push(Op::Build { idx, o: full });
+                let to = other_metric(metrics[j], &mut rng);
+                ops.push(Op::ChangeMetric { idx, to });
+                metrics[j] = to;
+            }
+            3 => {
+                // built by the shortcut (version record), then prepared for another metric: version + items
+                ops.push(Op::AddMany { idx, items: few });
+                ops.push(Op::Build { idx, o: shortcut });
+                let to = other_metric(metrics[j], &mut rng);
+                ops.push(Op::ChangeMetric { idx, to });
+                metrics[j] = to;
+            }
+            4 => ops.push(Op::Build { idx, o: shortcut }),                            // built empty: metadata (and version) only
+            5 => {
+                ops.push(Op::AddMany { idx, items: few });
+                ops.push(Op::Build { idx, o: shortcut });
+            }
+            6 => {
+                ops.push(Op::AddMany { idx, items: many });
+                ops.push(Op::Build { idx, o: full });
+            }
+            _ => {
+                // fully built, then everything deleted and rebuilt: metadata without items
+                ops.push(Op::AddMany { idx, items: many });
+                ops.push(Op::Build { idx, o: full.clone() });
+                ops.push(Op::DelMany { idx, ids: ids.to_vec() });
+                ops.push(Op::Build { idx, o: full });
+            }
+        }
+    }
+    ops.push(Op::Commit);
+    // the probes: operations on one index only; the trace compares the other one byte for byte after each
+    for _ in 0..rng.gen_range(1..=3) {
+        let j = rng.gen_range(0..2);
+        let idx = pair[j];
+        let id = *ids.choose(&mut rng).unwrap();
+        match rng.gen_range(0..8) {
+            0 => {
+                let to = other_metric(metrics[j], &mut rng);
+                ops.push(Op::ChangeMetric { idx, to });
+                metrics[j] = to;
+            }
+            1 => ops.push(Op::Clear { idx }),
+            2 => ops.push(Op::Build { idx, o: BuildOpts { split_after: Some(2), seed: rng.gen(), ..Default::default() } }),
+            3 => ops.push(Op::Add { idx, id, v: gen_vector(&mut rng, dims[j], &p, false) }),
+            4 => ops.push(Op::Append { idx, id, v: gen_vector(&mut rng, dims[j], &p, false) }),
+            5 => ops.push(Op::Del { idx, id }),
+            6 => ops.push(Op::DelMany { idx, ids: ids.to_vec() }),
+            _ => {
+                ops.push(Op::Add { idx, id, v: gen_vector(&mut rng, dims[j], &p, false) });
+                ops.push(Op::Build { idx, o: BuildOpts { split_after: Some(2), n_trees: Some(3), seed: rng.gen(), ..Default::default() } });
+            }
+        }
+        if rng.gen_bool(0.3) {
+            ops.push(Op::Commit);
+        }
+    }
+    // bring both to a built state again and look at them
+    for j in 0..2 {
+        ops.push(Op::Build { idx: pair[j], o: BuildOpts { split_after: Some(2), seed: rng.gen(), ..Default::default() } });
+        ops.push(Op::Search { idx: pair[j], seed: rng.gen() });
+    }
+    ops.push(Op::Commit);
+    let mut sorted = decl.clone();
+    sorted.sort_by_key(|d| d.idx);
+    History {
+        indexes: decl,
+        ops,
+        map_size: 256 * 1024 * 1024,
+        label: format!("neighbours:{seed}:shapes{}{}", shapes[0], shapes[1]),
+        faults: vec![],
+        max_polls: 2_000_000,
+        sides: true,
+    }
+}
+
 pub fn metric_of(h: &History) -> Metric {
     h.indexes[0].metric
 }
